@@ -19,6 +19,7 @@ import (
 	merkletree "github.com/wealdtech/go-merkletree/v2"
 	"github.com/wealdtech/go-merkletree/v2/sha3"
 
+	"github.com/jackalLabs/canine-chain/v4/x/storage"
 	storagetypes "github.com/jackalLabs/canine-chain/v4/x/storage/types"
 	storageutils "github.com/jackalLabs/canine-chain/v4/x/storage/utils"
 
@@ -228,6 +229,16 @@ func (w *storWorld) buyStorage(creator chain.Account, forAddr string, days, byte
 	res := w.f.Exec(msg)
 	w.logf("buyStorage by %s for %s days=%d bytes=%d referral=%q -> %s", short(creator.Bech), short(forAddr), days, bytes, referral, res)
 	return res
+}
+
+// restartStorage is what a restart from an exported genesis does to the storage module: its genesis is exported, its
+// store emptied and the genesis imported again. The other modules (bank balances included) keep their state, as they
+// would be carried over by their own genesis sections.
+func (w *storWorld) restartStorage() {
+	gs := storage.ExportGenesis(w.f.Ctx, w.c.App.StorageKeeper)
+	w.f.WipeStore(storagetypes.StoreKey)
+	storage.InitGenesis(w.f.Ctx, w.c.App.StorageKeeper, *gs)
+	w.logf("restart: the storage module is rebuilt from its exported genesis")
 }
 
 var storageModuleAddr = func() string {
